@@ -338,7 +338,11 @@ func (in *Interp) convert(v Value, from, to types.Type) Value {
 		case isInteger(from) && isFloat(to):
 			return ts.I2F(x, tsrt, !isUnsigned(from))
 		case isFloat(from) && isInteger(to):
-			return ts.F2I(x, tsrt, !isUnsigned(to))
+			r := ts.F2I(x, tsrt, !isUnsigned(to))
+			if in.cfg.ConcF2I && !r.IsConst() {
+				return ts.IntConst64(tsrt, int64(in.concretize(r, "float-to-int")))
+			}
+			return r
 		case isFloat(from) && isFloat(to):
 			if x.sort == tsrt {
 				return x
